@@ -109,6 +109,17 @@ def run(ctx):
             cases.append(("d%d" % j, "dec", [t, S.hb(hb_)]))
             g.hit("mut=" + kind)
             j += 1
+    gov = S.Gen(r.fork(), big=False, over=True)
+    for t in S.TYPES:
+        for _ in range(6 if quick else 100):
+            try:
+                b = S.py_encode(c, t, gov.value(t))[0]
+            except (OverflowError, ValueError):
+                continue
+            if len(b) <= 80000:
+                cases.append(("d%d" % j, "dec", [t, S.hb(b)]))
+                g.hit("mut=overlimit")
+                j += 1
     ctx.cov["boundary_hits"] = dict(sorted(g.hits.items()))
     compare(ctx, model, H, cases, {"types": len(S.TYPES)})
 
